@@ -188,6 +188,29 @@ pub fn run(ctx: &Ctx) -> Report {
             }
         }
     }
+    // supported / required lists of every size class up to all 65 536 types (an application that only
+    // wants the required-attribute check hands over every type): whole ranges ascending and descending,
+    // all but one type, everything twice, ladders around 24 / 256 / 4096 / 65 535 entries
+    {
+        let bodies: [&[(u16, &[u8])]; 3] = [&[(0x0006, b"user"), (0x0024, &[0, 0, 0, 1]), (0x7F01, &[]), (0x8022, b"s")], &[(0x8022, b"s")], &[(0x0006, b"u"), (0x0014, b"r"), (0x0015, b"n")]];
+        let mut sup_lists: Vec<String> = vec!["r:0-ffff".into(), "r:ffff-0".into(), "r:0-7fff".into(), "r:0-7f00,7f02-ffff".into(), "r:0-ffff,0-ffff".into(), "r:8000-ffff,0-7fff".into(), "r:0-fffe".into(), "r:1-ffff".into()];
+        for n in [22u32, 23, 24, 25, 26, 254, 255, 256, 257, 4095, 4096, 4097, 32767, 32768, 65534] {
+            sup_lists.push(format!("r:0-{:x}", n));
+            sup_lists.push(format!("r:6,24,14,15,100-{:x}", (0x100 + n).min(0xFFFF)));
+        }
+        for body in bodies {
+            let mut b = wire::encode_header(0, 1, tid, 0);
+            for (t, v) in body {
+                wire::append_raw(&mut b, *t, v);
+            }
+            wire::append_fp(&mut b);
+            for sup in &sup_lists {
+                for req in ["r:", "r:6", "r:6,14,15", "r:9", "r:0-ffff", "r:8022,8028"] {
+                    many.push(Case::new("police", b.clone()).text(&[sup, req]));
+                }
+            }
+        }
+    }
     let acc_many = crate::props::sweep(many.into_par_iter(), judge);
     // the response constructors called directly: unknown_attributes(request, list) for lists of
     // 0..=400 types (distinct, repeated, optional types included) and bad_request(request)
@@ -212,7 +235,7 @@ pub fn run(ctx: &Ctx) -> Report {
     Report {
         acc,
         exhaustive: true,
-        rule: "request messages whose attribute lists are all sequences (duplicates included) up to the depth over {SOFTWARE, USERNAME, PRIORITY, 0x7F00, 0xFF00, MESSAGE-INTEGRITY, MESSAGE-INTEGRITY-SHA256, FINGERPRINT} that the reference decoder accepts x methods {0,1,0xFFF}; type universe of 9 (those 8 + USE-CANDIDATE, never present); per message: supported = any subset of the present types + none/all of the absent ones, required = any subset of the present types + none/one/all of the absent ones; for messages of <= 2 attributes (method 1) all 2^9 x 2^9 supported x required subsets; every third configuration repeated with reversed lists whose entries are duplicated; requests with n = 1..=400 unsupported comprehension-required attributes (distinct / one type repeated / optional / mixed); requests with an attribute of 250..=260 / 508..=516 / 763 bytes in front of, between and behind the required types; requests with n = 1..=64 acceptable attributes and the required list naming the first / middle / last / all of them or an absent type; unknown_attributes(request, list) called directly with lists of 0..=400 and 1000 types (distinct / repeating / mixed) and bad_request(request), 3 methods; comprehension_required for all 65536 types; distinct_nontrivial = request messages".into(),
+        rule: "request messages whose attribute lists are all sequences (duplicates included) up to the depth over {SOFTWARE, USERNAME, PRIORITY, 0x7F00, 0xFF00, MESSAGE-INTEGRITY, MESSAGE-INTEGRITY-SHA256, FINGERPRINT} that the reference decoder accepts x methods {0,1,0xFFF}; type universe of 9 (those 8 + USE-CANDIDATE, never present); per message: supported = any subset of the present types + none/all of the absent ones, required = any subset of the present types + none/one/all of the absent ones; for messages of <= 2 attributes (method 1) all 2^9 x 2^9 supported x required subsets; every third configuration repeated with reversed lists whose entries are duplicated; requests with n = 1..=400 unsupported comprehension-required attributes (distinct / one type repeated / optional / mixed); requests with an attribute of 250..=260 / 508..=516 / 763 bytes in front of, between and behind the required types; requests with n = 1..=64 acceptable attributes and the required list naming the first / middle / last / all of them or an absent type; supported lists of every size class up to all 65 536 types (ascending, descending, all but one, everything twice, ladders around 24 / 256 / 4096 / 65 535 entries) x six required lists x three requests; unknown_attributes(request, list) called directly with lists of 0..=400 and 1000 types (distinct / repeating / mixed) and bad_request(request), 3 methods; comprehension_required for all 65536 types; distinct_nontrivial = request messages".into(),
         bounds: json!({"messages": n_msgs, "depth": depth, "configurations_per_message": "<= 2^k * 2 * 2^k * 3 for k present universe types; 262144 for messages of <= 2 attributes"}),
         assumptions: vec!["UNKNOWN-ATTRIBUTES is compared modulo repeats (the statement does not say whether a type present twice is listed twice)".into()],
         ..Default::default()
@@ -251,7 +274,29 @@ pub fn judge(case: &Case, acc: &mut Acc) {
             }
             acc.validated += 1;
             // lists given explicitly (text = [supported, required] as hex u16 lists) or as universe masks
-            let parse_list = |t: &str| -> Vec<u16> { crate::refimpl::crypto::unhex(t).chunks(2).map(|c| u16::from_be_bytes([c[0], c[1]])).collect() };
+            // ("r:" + comma-separated hex items, an item a-b standing for every type from a to b in that order)
+            let parse_list = |t: &str| -> Vec<u16> {
+                if let Some(r) = t.strip_prefix("r:") {
+                    let mut out = Vec::new();
+                    for item in r.split(',').filter(|i| !i.is_empty()) {
+                        let h = |x: &str| u16::from_str_radix(x, 16).expect("hex type");
+                        match item.split_once('-') {
+                            Some((a, b)) => {
+                                let (a, b) = (h(a), h(b));
+                                if a <= b {
+                                    out.extend(a..=b);
+                                } else {
+                                    out.extend((b..=a).rev());
+                                }
+                            }
+                            None => out.push(h(item)),
+                        }
+                    }
+                    out
+                } else {
+                    crate::refimpl::crypto::unhex(t).chunks(2).map(|c| u16::from_be_bytes([c[0], c[1]])).collect()
+                }
+            };
             let (sup, req) = if case.text.len() == 2 { (parse_list(&case.text[0]), parse_list(&case.text[1])) } else { (subset(case.args[0]), subset(case.args[1])) };
             let want = police::verdict(&m, &sup, &req);
             let supt: Vec<AttributeType> = sup.iter().map(|t| AttributeType::new(*t)).collect();
